@@ -1017,6 +1017,29 @@ def gen_C11(rng, tier):
         h.ops.append("obs %s" % i1)
         h.ops.append("isgroebner %s" % i1)
         L.append(h.line())
+    # (round 10, C11-R10) textbook ideals with HUGE exponents: <X^e + Y, X^e*Y + 1> and relatives with e around 2^16, 2^31,
+    # 2^32 (products of exponents that wrap around to 0), every order; the predicate is asked on a FRESH ideal made of
+    # the returned generators as well (an independent re-check that does not trust the flag)
+    for e in [2 ** 16, 2 ** 31, 2 ** 32, 2 ** 32 + 1, 2 ** 33, 3 * 2 ** 31]:
+        for shape in (0, 1, 2):
+            desc = field_desc(*rng.choice(SMALL_Q[:6]))
+            h = H(rng, desc, bspec=bspec(rng, order=rng.choice(["lex.1", "lex.0", "deglex.1", "degrevlex.0", "wdeglex.1.1.1"]) if shape < 2 else None))
+            c = rand_elem(desc, rng, special=0)
+            c = c if c not in ("0",) else "1"
+            if shape == 0:
+                f = h.newb(); h.ops.append("%s=map@0 %d:0:1/0:1:1" % (f, e))
+                g = h.newb(); h.ops.append("%s=map@0 %d:1:1/0:0:%s" % (g, e, c))
+            elif shape == 1:
+                f = h.newb(); h.ops.append("%s=map@0 0:%d:1/1:0:1" % (f, e))
+                g = h.newb(); h.ops.append("%s=map@0 1:%d:1/0:0:%s" % (g, e, c))
+            else:
+                f = h.newb(); h.ops.append("%s=map@0 %d:1:1/0:0:%s" % (f, e, c))
+                g = h.newb(); h.ops.append("%s=map@0 %d:2:1/1:0:1" % (g, e))
+            i0 = h.newi(); h.ops.append("%s=ideal@0 %s %s" % (i0, f, g))
+            i1 = h.newi(); h.ops.append("%s=groebner %s" % (i1, i0))
+            h.ops.append("obs %s" % i1)
+            h.ops.append("isgroebner %s" % i1)
+            L.append(h.line())
     return L
 
 
